@@ -153,6 +153,8 @@ def gen_scenario(rng, name, p_async=0.25, p_fwd=0.3, p_typeerror=0.08):
             cb["name"] = f"pp{cid}"
         if form in ("conv", "mname", "model", "lconv", "func", "deco") and allow_async and rng.random() < 0.4:
             cb["is_async"] = True
+        if form in ("conv", "mname", "model", "lconv", "func") and rng.random() < 0.2:
+            cb["wrapped"] = True      # behind a signature-preserving decorator (functools.wraps)
         if form == "twin":
             cb["is_async"] = True
             cbs.append(cb)
@@ -329,7 +331,8 @@ def _def(cb, first=None, indent="", name=None, body_id=None, deco=None):
     cid = cb["id"] if body_id is None else body_id
     head = f"{indent}{'async ' if cb['is_async'] else ''}def {nm}({sig_text(sig, first=first)}):\n"
     body = f"{indent}    return REC({cid}, {record_expr(sig)})\n"
-    return (f"{indent}{deco}\n" if deco else "") + head + body
+    wrap = f"{indent}@{'AWRAP' if cb['is_async'] else 'WRAP'}\n" if cb.get("wrapped") else ""
+    return (f"{indent}{deco}\n" if deco else "") + wrap + head + body
 
 
 def render(scn):
@@ -425,7 +428,20 @@ def run_impl(scn):
     tokens = Tokens()
     rec = Recorder(scn, tokens)
     src = render(scn)
-    ns = {"StateMachine": StateMachine, "State": State, "REC": rec.rec, "_D": DFLT, "functools": functools}
+    def WRAP(f):
+        @functools.wraps(f)
+        def wrapper(*a, **k):
+            return f(*a, **k)
+        return wrapper
+
+    def AWRAP(f):
+        @functools.wraps(f)
+        async def wrapper(*a, **k):
+            return await f(*a, **k)
+        return wrapper
+
+    ns = {"StateMachine": StateMachine, "State": State, "REC": rec.rec, "_D": DFLT, "functools": functools,
+          "WRAP": WRAP, "AWRAP": AWRAP}
     exec(src, ns)  # noqa: S102
     sm = ns["M"](ns["MODEL"], listeners=ns["LISTENERS"])
     rec.sm = sm
